@@ -6,6 +6,8 @@ CONSTANTS
  FixBreakOnError = FALSE
  FixSentinel = TRUE
  FixLfsFail = TRUE
+ DevStaleCache = FALSE
+ DevTruncAccepted = FALSE
 INIT Init
 NEXT Next
 INVARIANTS C33_CheckpointSafe
